@@ -526,3 +526,26 @@ func Integrate20(f func(float64) float64, a, b float64) float64 {
 	}
 	return s * h
 }
+
+// TCDFSeries evaluates the Student-t CDF for x^2 <= V/4 from the Maclaurin
+// series  1/2 + x * Gamma((V+1)/2)/(sqrt(pi V) Gamma(V/2)) * 2F1(1/2,(V+1)/2;3/2;-x^2/V),
+// which has no cancellation near x = 0 (float64; relative accuracy ~1e-14 of CDF-1/2).
+func TCDFSeries(x, v float64) float64 {
+	if x*x > v/4 {
+		panic("ref.TCDFSeries: outside the region of fast convergence")
+	}
+	lg1, _ := math.Lgamma((v + 1) / 2)
+	lg2, _ := math.Lgamma(v / 2)
+	c := math.Exp(lg1-lg2) / math.Sqrt(math.Pi*v)
+	z := -x * x / v
+	sum, term := 1.0, 1.0
+	a, b := 0.5, (v+1)/2
+	for n := 0.0; n < 500; n++ {
+		term *= (a + n) * (b + n) / ((1.5 + n) * (n + 1)) * z
+		sum += term
+		if math.Abs(term) < 1e-18*math.Abs(sum) {
+			break
+		}
+	}
+	return 0.5 + x*c*sum
+}
